@@ -1,7 +1,8 @@
 """Property -> harness modules.  A module may host conditions of several properties
 (the registry is filtered by property id)."""
 PROPS = {
-    'C14': ['mpgverif.harness.c14_vep'],
+    'C19': ['mpgverif.harness.c19_filter'],
+    'C14': ['mpgverif.harness.c14_vep', 'mpgverif.harness.c14_reditools'],
     'C16': ['mpgverif.harness.c16_rmats'],
     'C17': ['mpgverif.harness.c17_circ'],
     'C13': ['mpgverif.harness.c13_gvf'],
